@@ -28,7 +28,7 @@ Print Assumptions C05_operator_spellings_from_source.
 (* the documented precedences and the refusal of ill-formed text, on the reference parser (fixed instances evaluated by the kernel):
    star binds tighter than concatenation, which binds tighter than union; parentheses group; an empty group, a leading star and a
    dangling union are refused *)
-From PFL Require Import Model.RegexParse.
+From PFL Require Import Model.RegexParse Proofs.RegexParse.
 Theorem C05_precedence_instances :
   parse_regex (TSym 1 :: TUnion :: TSym 2 :: TSym 3 :: TStar :: nil) = Some (RAlt (RSym 1) (RCat (RSym 2) (RStar (RSym 3)))) /\
   parse_regex (TLp :: TSym 1 :: TUnion :: TSym 2 :: TRp :: TSym 3 :: nil) = Some (RCat (RAlt (RSym 1) (RSym 2)) (RSym 3)) /\
@@ -51,3 +51,10 @@ Print Assumptions C05_to_epsilon_nfa_model.
 Theorem C05_to_cfg_model : forall (r : re) (w : list N), LangG (re_cfg r) w <-> den r w.
 Proof. exact re_cfg_lang. Qed.
 Print Assumptions C05_to_cfg_model.
+
+(* the reference parser implements the documented precedences: every expression (without the empty language, which has no text
+   of its own) is read back from its text with the fewest parentheses that star > concatenation > union and right grouping
+   allow, whether concatenation is written "." (dot = true) or by juxtaposition (dot = false) *)
+Theorem C05_parser_reads_minimal_text : forall (dot : bool) (r : re), no_empty r -> parse_regex (pr dot 0 r) = Some r.
+Proof. exact parse_print. Qed.
+Print Assumptions C05_parser_reads_minimal_text.
